@@ -98,6 +98,20 @@ Theorem C05_ns_independent :
       /\ length vgB = length gB /\ length vrB = length rB.
 Proof. exact spec_verdicts_independent. Qed.
 
+(* ... hence what is reported about A: the rules of A reported for the union, in order, with their verdicts,
+   are those reported for A alone (rule identifiers of A and of the added rules being distinct). *)
+Theorem C05_reported_independent :
+  forall inp n n' gA gB rA rB mgA mgB mrA mrB nm ids,
+    length mgA = nvars_of gA -> length mgB = nvars_of gB -> length mrA = nvars_of rA ->
+    (forall a b, In a (gA ++ rA) -> In b gB -> r_ns b <> r_ns a) ->
+    (forall a, In a (gA ++ rA) -> existsb (N.eqb (r_id a)) ids = true) ->
+    (forall b, In b (gB ++ rB) -> existsb (N.eqb (r_id b)) ids = false) ->
+    filter (in_ids ids)
+           (spec_reported {| s_globals := gA ++ gB; s_rules := rA ++ rB; s_nns := n' |}
+                          (with_matches inp (mgA ++ mgB ++ mrA ++ mrB)) nm)
+    = spec_reported {| s_globals := gA; s_rules := rA; s_nns := n |} (with_matches inp (mgA ++ mrA)) nm.
+Proof. exact spec_reported_independent. Qed.
+
 (* ... and declared before them: the references of A's conditions to earlier rules of A are then the same
    references shifted by the number of ordinary rules added (`shift_rule`), and the verdicts are unchanged. *)
 Theorem C05_ns_independent_before :
@@ -148,6 +162,7 @@ Example C05_example :
 Proof. vm_compute. repeat split. Qed.
 
 Print Assumptions C05_ns_independent.
+Print Assumptions C05_reported_independent.
 Print Assumptions C05_ns_independent_before.
 Print Assumptions C05_shift_rules_sem.
 Print Assumptions C05_scan_eq_spec.
